@@ -49,13 +49,13 @@ def _merge(*ds):
 
 PROPS = {
     'C01': {
-        'proofs': ['Ww.Proofs.C01', 'Ww.Proofs.GenTie.C01', 'Ww.Proofs.GenTie.Handlers', 'Ww.Proofs.GenTie.Ingress', 'Ww.Proofs.GenTie.Grant', 'Ww.Proofs.GenTie.ProxyHeaders'],
-        'gen_sections': HANDLER_SECTIONS + ['Meta', 'pkg/session/data.go', 'Dec/acrValidate', 'pkg/openid/acr/acr.go', 'Dec/sessionCanRefresh', 'Dec/sessionShouldRefresh', 'Dec/sessionYieldsToken', 'Dec/acrValidate', 'pkg/session/session.go'] + PROVIDER_SECTIONS,
-        'drivers': [{'name': 'hist'}, {'name': 'meta'}],
+        'proofs': ['Ww.Proofs.C01', 'Ww.Proofs.GenTie.C01', 'Ww.Proofs.GenTie.Handlers', 'Ww.Proofs.GenTie.Ingress', 'Ww.Proofs.GenTie.Grant', 'Ww.Proofs.GenTie.ProxyHeaders', 'Ww.Proofs.GenTie.C07'],
+        'gen_sections': HANDLER_SECTIONS + ['Meta', 'pkg/session/data.go', 'Dec/acrValidate', 'pkg/openid/acr/acr.go', 'Dec/sessionCanRefresh', 'Dec/sessionShouldRefresh', 'Dec/sessionYieldsToken', 'Dec/acrValidate', 'pkg/session/session.go'] + PROVIDER_SECTIONS + MANAGER_SECTIONS,
+        'drivers': [{'name': 'hist'}, {'name': 'meta'}, {'name': 'fault', 'timeout': 1500}],
         'reasons': ['C01.'],
-        'class_fields': _merge(META_CLASS, HIST_CLASS),
-        'nontrivial': _merge({'meta': _meta_nontrivial}, HIST_NT),
-        'rule': HIST_RULE + "meta driver as for C08.",
+        'class_fields': _merge(META_CLASS, HIST_CLASS, {'fault': ['handler', 'prestate', 'fpos', 'fkind', 'fcount', 'status', 'upauth'], 'faultdry': ['handler', 'prestate']}),
+        'nontrivial': _merge({'meta': _meta_nontrivial}, HIST_NT, {'faultdry': lambda f: False}),
+        'rule': HIST_RULE + "meta driver as for C08. fault driver as for C11 (a fault at every store / provider position of every handler): the token the upstream receives must be one the stored session held before or holds after the request.",
         'level_text': "Proof: soundness (a token reaches the upstream only for a decryptable ticket whose stored session is live, unexpired, of sufficient ACR, and it is that session's current token, "
                       "also right after an automatic refresh), completeness (such a session always gets its token set, replacing client values) and the no-session corollary are Lean theorems about the "
                       "handler model for EVERY cookie/store state, provider answer, configuration and clock value; the time predicates inside are regenerated from data.go on each run; the hand-written "
